@@ -72,7 +72,86 @@ def run(ctx):
     # R13.4: the -fwide-types build carries object-set identifier cells as INTEGER_t literals, the native build as long
     # constants; the literal must denote the same number (rule R18.2 evaluated for this property)
     from . import c18
-    return [r, r2, r13_3(ctx.prog("S"), tab), c18.r18_2(prog, rid="R13.4")]
+    return [r, r2, r13_3(ctx.prog("S"), tab), c18.r18_2(prog, rid="R13.4"), r13_5(prog, tab, scope)]
+
+
+def r13_5(prog, tab, scope=None):
+    """Whether a wire table is emitted does not depend on a representation option.  For every branch in libasn1compiler
+    whose condition reads one of the option enumerators: the set of wire-relevant functions called on some path from
+    its true edge equals the set called from its false edge (within the function).  Wire-relevant: the table emitters,
+    the functions that set a TM_* mark which an emitter (or its callees) reads -- TM_PERFROMCT decides whether the PER
+    character map is emitted -- and everything that calls such a function.  A table that exists only without the
+    option, while the descriptor referring to it is emitted either way, changes the codec's constraints or no longer
+    compiles (-fno-constraints with member-level PER/OER constraints)."""
+    r = Rule("R13.5", "no call to a wire-table emitter (or to the code that sets state it reads) is control-dependent on a representation option", floor=10)
+    flags = set(tab["representation_flags"])
+    emitters = set(tab["wire_table_emitters"])
+    exc = {(x["function"], x["key"]): x["reason"] for x in tab.get("r13_5_exceptions", [])}
+    cg = prog.callgraph()
+    # marks read by the emitters' scope
+    marks = set()
+    for k in (scope or []):
+        f = prog.funcs[k]
+        for b, line, tree in f.all_trees():
+            if any(n[0] == "member" and n[2] == "_mark" for n in walk(tree)):
+                marks |= {n[1] for n in walk(tree) if n[0] == "enum" and n[1].startswith("TM_")}
+    writers = set()
+    for f in prog.funcs.values():
+        if "libasn1compiler/" not in f.relfile:
+            continue
+        for b, i, e in f.events("assign"):
+            if e.get("field") == "_mark" and e.get("op") in ("|=", "=") and "rhs" in e and any(n[0] == "enum" and n[1] in marks for n in walk(e["rhs"]["tree"])):
+                writers.add(f.key)
+    relevant = {prog.funcs[k].name for k in writers}
+    # callers of the writers, transitively
+    changed = True
+    keys = set(writers)
+    while changed:
+        changed = False
+        for f in prog.funcs.values():
+            if f.key in keys or "libasn1compiler/" not in f.relfile:
+                continue
+            for b, i, e, tg in cg.sites[f.key]:
+                if any(t in keys for t in tg):
+                    keys.add(f.key)
+                    relevant.add(f.name)
+                    changed = True
+                    break
+    relevant |= emitters
+    r.note("marks read by the wire-table emitters: %s; set by: %s; wire-relevant functions: %d" % (sorted(marks), sorted(prog.funcs[k].name for k in writers), len(relevant)))
+    for f in sorted(prog.funcs.values(), key=lambda f: f.key):
+        if "libasn1compiler/" not in f.relfile:
+            continue
+        sites = {}
+        for b, i, e in f.calls():
+            if e.get("callee") in relevant and e.get("callee") != f.name:
+                sites.setdefault(b.id, set()).add(e["callee"])
+        n = 0
+        for b in sorted(f.blocks.values(), key=lambda b: ((b.term or {}).get("line") or 0, b.id)):
+            t = b.term
+            if not t or "cond" not in t or len(b.succ) < 2 or t["kind"] == "SwitchStmt":
+                continue
+            rd = sorted({x[1] for x in walk(t["cond"]["tree"]) if x[0] == "enum" and x[1] in flags})
+            if not rd:
+                continue
+            n += 1
+            key = "if(%s)@%d" % ("|".join(rd), n)
+            if not sites:
+                r.ok(f, key, "no wire-relevant function is called in this function", t.get("line"), nontrivial=False)
+                continue
+            reach = []
+            for s_ in b.succ[:2]:
+                blocks = f.reachable_from([s_]) if s_ is not None else set()
+                reach.append(set().union(*[sites.get(bid, set()) for bid in blocks]) if blocks else set())
+            if reach[0] == reach[1]:
+                r.ok(f, key, "the same wire-relevant functions (%s) are called on both edges" % (", ".join(sorted(reach[0])) or "none"), t.get("line"))
+            elif (f.name, key) in exc:
+                r.exc(f, key, exc[(f.name, key)], t.get("line"))
+            else:
+                key = "if(%s) decides %s" % ("|".join(rd), ",".join(sorted(reach[0] ^ reach[1])))
+                r.bad(f, key, "the option decides whether %s run: the wire tables (or their existence) depend on a representation "
+                              "option" % ", ".join(sorted(reach[0] ^ reach[1])), t.get("line"))
+    return r
 
 
 def _is_raw(n):
